@@ -146,6 +146,16 @@ CHECKS["C19"] = dict(category="exploration",
            "everything inside the announced range, exact shifted positions and genome order for origin-crossing regions, genes once/in range/linked.",
       note="Layouts on which region creation raises (C06's subject) are counted and skipped. Row minimality and non-coordinate attributes are not judged.",
       design="3/C19")
+CHECKS["C13"] = dict(category="exploration",
+      technique="exhaustive enumeration of hit sets over a coordinate grid (<=3 hits, both modes) x all input orders, Hypothesis tie-heavy hit multisets, validity predicates per statement clause and permutation invariance",
+      text="refine_hmmscan_results (both modes), hmmer.remove_overlapping, filter_results/filter_result_multiple and "
+           "filter_nonterminal_docking_domains are run over every set of <=3 hits on a grid and random multisets of up to 7 hits (equal "
+           "starts, equal scores, nesting, chains, fragments) under all input orders (<=4 hits: all n!, more: a fixed family plus every order "
+           "the internal set can give equal-start hits): sorted, no overlap beyond the margin, every output an input or a legal merge, every "
+           "drop explained by a kept better hit or a more complete alternative, and identical results for every order.",
+      note="One open known finding (a complete hit displaced by a short fragment that is then removed as incomplete: stage order, needs a maintainer "
+           "decision). Cross-process hash-seed invariance is C17's.",
+      design="3/C13")
 NOT_YET = {}
 
 def main():
